@@ -59,14 +59,63 @@ func flip(v val.V) val.V {
 	return v
 }
 
+// derived: b is computed from the *bound value* of a (name va / vb) by a builtin that may
+// share storage with it (prefixes, extensions, views)
+func derived(t *rapid.T, label, name string, a val.V) (val.V, string, bool) {
+	if a.K != val.List && a.K != val.Vec {
+		return val.V{}, "", false
+	}
+	n := len(a.L)
+	cp := func(xs []val.V) []val.V { return append([]val.V{}, xs...) }
+	switch rapid.IntRange(0, 7).Draw(t, label+"dk") {
+	case 0:
+		if a.K == val.Vec {
+			k := rapid.IntRange(0, n).Draw(t, label+"sv")
+			return val.V{K: val.Vec, L: cp(a.L[:k])}, fmt.Sprintf("(subvec %s 0 %d)", name, k), true
+		}
+	case 1:
+		if a.K == val.Vec {
+			return val.V{K: val.Vec, L: append(cp(a.L), val.I(1))}, "(conj " + name + " 1)", true
+		}
+	case 2:
+		k := rapid.IntRange(0, n+1).Draw(t, label+"tk")
+		if k > n {
+			k = n
+		}
+		return val.V{K: val.List, L: cp(a.L[:k])}, fmt.Sprintf("(take %d %s)", k, name), true
+	case 3:
+		if n > 0 {
+			return val.V{K: val.List, L: cp(a.L[1:])}, "(rest " + name + ")", true
+		}
+	case 4:
+		return val.V{K: val.List, L: append(cp(a.L), val.N())}, "(concat " + name + " (list nil))", true
+	case 5:
+		if n > 0 {
+			return val.V{K: val.List, L: cp(a.L)}, "(seq " + name + ")", true
+		}
+	case 6:
+		k := rapid.IntRange(0, n).Draw(t, label+"dl")
+		return val.V{K: val.List, L: cp(a.L[:n-k])}, fmt.Sprintf("(drop-last %d %s)", k, name), true
+	}
+	return val.V{K: val.Vec, L: cp(a.L)}, "(vec " + name + ")", true
+}
+
 func genCase(t *rapid.T) Case {
 	var c Case
 	c.A = gen.Data(t, "a", 4, opts)
-	c.B, c.RelAB = variant(t, "b", c.A)
-	c.C, c.RelBC = variant(t, "c", c.B)
 	c.EA = gen.BuildExpr(t, "ea", c.A)
-	c.EB = gen.BuildExpr(t, "eb", c.B)
-	c.EC = gen.BuildExpr(t, "ec", c.C)
+	if b, eb, ok := derived(t, "db", "va", c.A); ok && rapid.IntRange(0, 3).Draw(t, "useder") == 0 {
+		c.B, c.EB, c.RelAB = b, eb, "derived"
+	} else {
+		c.B, c.RelAB = variant(t, "b", c.A)
+		c.EB = gen.BuildExpr(t, "eb", c.B)
+	}
+	if cc, ec, ok := derived(t, "dc", "vb", c.B); ok && rapid.IntRange(0, 3).Draw(t, "usederc") == 0 {
+		c.C, c.EC, c.RelBC = cc, ec, "derived"
+	} else {
+		c.C, c.RelBC = variant(t, "c", c.B)
+		c.EC = gen.BuildExpr(t, "ec", c.C)
+	}
 	return c
 }
 
@@ -167,7 +216,7 @@ func check(c Case) pbt.Verdict {
 		v.Labels = append(v.Labels, "a=b")
 	}
 	nt := func(rel string, x val.V) bool {
-		return (rel == "rebuilt" || rel == "mutant" || rel == "seqflip") && val.Depth(x) >= 1
+		return (rel == "rebuilt" || rel == "mutant" || rel == "seqflip" || rel == "derived") && val.Depth(x) >= 1
 	}
 	v.NonTrivial = nt(c.RelAB, c.A) || nt(c.RelBC, c.B)
 	v.Key = val.Canon(c.A) + "|" + val.Canon(c.B) + "|" + val.Canon(c.C) + "|" + c.EA + c.EB + c.EC
